@@ -426,14 +426,14 @@ def _has_set_pop(ops):
 
 def gen_cases(rng, tier):
     cases = []
-    pick = rng.randint(0, 1)
+    pick = rng.randint(0, 2)
     for kind in (0, 1, 2):
         conts = _conts(kind)
         plain = conts[1]
         for mi, (name, mop) in enumerate(_mutators(kind)):
             for ci, (cname, tmpl) in enumerate(_continuations()):
-                if tier != "thorough" and (mi + ci + pick) % 2:
-                    continue  # quick tier: half of the method x continuation grid (seeded rotation)
+                if tier != "thorough" and (mi + ci + pick) % 3:
+                    continue  # quick tier: a third of the method x continuation grid (seeded rotation)
                 init = conts[2] if kind != 1 else conts[3]
                 ops = _instantiate(tmpl, mop, plain)
                 cases.append({"in": [kind, [init, conts[1]], ops], "kind": "tmpl-" + cname})
@@ -450,7 +450,7 @@ def gen_cases(rng, tier):
         for name, mop in _mutators(kind):
             if not name.startswith("-"):
                 cases.append({"in": [4 + kind, conts[2] if kind != 1 else conts[3], [mop]], "kind": "reattach", "model": False})
-    nrand = 6000 if tier == "thorough" else 600
+    nrand = 6000 if tier == "thorough" else 450
     for i in range(nrand):
         cases.append(_rand_case(rng, i % 3))
     for i in range(nrand // 5):
